@@ -10,7 +10,7 @@ from vlib.verdict import Case
 PROPERTY = 'C12'
 MANIFEST = {
  'level_text': 'Lean 4 theorems, kernel-checked, about an executable model of the whole splitting pipeline. (1) byteTextWrap/splitBytes: for every chunk list and every size >= 4 the loop terminates normally, the lines concatenate to the munged text, none exceeds the size, none is empty. (2) FormatContext/FormatParser/ircutils.wrap: re-opening a context costs at most size() bytes; by a simulation proof, for EVERY text (colours, bold/underline/reverse, over-long words, multi-byte characters) whose wrapped lines do not begin with a digit or comma the contexts recomputed from the produced lines are those of the text, hence every line fits the requested length and the client-visible text (stripFormatting modelled as a state machine) of the lines concatenates to the visible text of the input; unconditionally for text without colour codes. (3) reply arithmetic: every message of a chunked (or single) reply, prefixed with the bot hostmask as the server relays it, is at most 512 bytes, for every target / nick-prefix / notice / private / to= combination, hostmask, nick, reply.mores.{maximum,instant} setting, per-channel configuration value and shipped locale (the suffix reserve is proved sufficient for every row of the table extracted from locales/*.po); with an explicit reply.mores.length every line is at most frame + length bytes, and a counter-example shows 512 is then up to the operator; replies that bypass the check (irc.error, action, reply.mores off) are proved to be one message cut at 512 outgoing bytes (a recorded finding). (4) more protocol: first answer plus successive more commands deliver the chunks in order, each exactly once, each followed by the exact count of messages remaining, for every instant and sequence of batch sizes, and — non-interference theorem over arbitrary traces — whatever other requesters do meanwhile (their own replies, more, more <nick> on this very reply). The places where the full statements are false on the pinned tree are kept visible with proved counter-examples and are listed known findings. Constants (512, suffix texts, FormatContext sizes, control characters, getInt base/limit, splitBytes tries, the stripColor regex) are re-extracted from /repo on every run; the model is tied to the code by a differential run (pure functions on tens of thousands of generated strings; real replies + more on a live bot through the synthetic plugin VtLong) that also evaluates the property statement on the implementation.',
- 'level_note': 'Trusted: Lean kernel (axioms propext/Classical.choice/Quot.sound only); harness/extractors/reply.py (constants and the locales/*.po table); the correspondence harness (generators bound what it sees); parameters of the model: textwrap.TextWrapper()._split_chunks (contract: chunks concatenate to the munged text, checked by the model driver on every case), repr() in safeArgument (the model takes the text after safeArgument), irc.isChannel / ircutils.isChannel / isNick / state.nickToHostmask (booleans and one optional hostmask per call), \\d of the stripColor regex restricted to ASCII digits. Modelled: splitBytes, byteTextWrap, textwrap whitespace munging, FormatContext.start/end/size, FormatParser.parse/getInt/getColor (two-digit limit), ircutils.wrap, stripFormatting, _makeReply (command, target, nick prefix, error=True, action=True, strip of \\x01, empty-message text), one call of irc.reply / irc.error with its configuration lookups (global values and the values of one channel for reply.mores.*, withNotice, inPrivate, withNickPrefix, error.*), the length-checked branch of reply (allowedLength explicit or computed, truncation, suffix reserve in every shipped locale, suffixes, instant), the shapes that bypass it (action, error, reply.mores off) followed by Irc._truncateMsg, nested replies (cut to reply.maximumLength), the shared _mores dictionary (heap of list objects keyed by rfc1459-lowered user@host and nick; the key is the hostmask of to= when it is a known nick), Misc.more and more <nick>. Not modelled: attributes leaking from an inner nested reply with keywords into the outer one, statusmsg-prefixed targets, network-specific configuration values, locales other than the five shipped. Seven defects were repaired in /repo (fixes/C12-*.patch); four are recorded findings: cut of an over-long word inside a \\x03NN sequence, re-opened foreground colour followed by \",<digit>\", reply.mores.maximum counted in characters, error/action replies not length-checked.',
+ 'level_note': 'Trusted: Lean kernel (axioms propext/Classical.choice/Quot.sound only); harness/extractors/reply.py (constants and the locales/*.po table); the correspondence harness (generators bound what it sees); parameters of the model: textwrap.TextWrapper()._split_chunks (contract: chunks concatenate to the munged text, checked by the model driver on every case), repr() in safeArgument (the model takes the text after safeArgument), irc.isChannel / ircutils.isChannel / isNick / state.nickToHostmask (booleans and one optional hostmask per call), \\d of the stripColor regex restricted to ASCII digits. Modelled: splitBytes, byteTextWrap, textwrap whitespace munging, FormatContext.start/end/size, FormatParser.parse/getInt/getColor (two-digit limit), ircutils.wrap, stripFormatting, _makeReply (command, target, nick prefix, error=True, action=True, strip of \\x01, empty-message text), one call of irc.reply / irc.error with its configuration lookups (global values and the values of one channel for reply.mores.*, withNotice, inPrivate, withNickPrefix, error.*), the length-checked branch of reply (allowedLength explicit or computed, truncation, suffix reserve in every shipped locale, suffixes, instant), the shapes that bypass it (action, error, reply.mores off) followed by Irc._truncateMsg, nested replies (cut to reply.maximumLength), the shared _mores dictionary (heap of list objects keyed by rfc1459-lowered user@host and nick; the key is the hostmask of to= when it is a known nick), Misc.more and more <nick>. Also modelled: the reply attributes of a proxy and how the keywords of a nested command leak into the enclosing reply (Attrs.apply / forward), STATUSMSG-prefixed targets, the values a network (and a channel of a network) sets, as registry.getSpecific resolves them. C12/LinkC06.lean proves that the byte measure of all C12 theorems is the utf8Len of C06 = the bytes the socket driver writes (C11) and that sentLine is C06.truncate. Not modelled: locales other than the five shipped; irc.error texts are not chunked by the code (finding). Eight defects were repaired in /repo (fixes/C12-*.patch); three are recorded findings: cut of an over-long word inside a \\x03NN sequence, re-opened foreground colour followed by \",<digit>\", error/action replies not length-checked.',
  'technique': 'Lean 4 proof (induction over fuel/strings, loop invariants, simulation between two parser runs, finite tables by decide) + constant extraction + differential correspondence (pure + live bot)',
  'design_ref': 'DESIGN.md §6 C12',
 }
@@ -26,7 +26,7 @@ THEOREMS = [
     'C12.two_requesters', 'C12.more_protocol_interleaved', 'C12.adopt_copy',
     'C12.fits_length_partial', 'C12.fits_length_nocolour', 'C12.fits_length_clean', 'C12.length_overflow_counterexample',
     'C12.locale_texts_ok', 'C12.sentLine_le', 'C12.action_reply_single', 'C12.replyCall_normal', 'C12.unchecked_counterexample',
-    'C12.mores_off_single', 'C12.nested_arg', 'C12.fits_512_call', 'C12.storeMask_cases',
+    'C12.mores_off_single', 'C12.nested_arg', 'C12.fits_512_call', 'C12.storeMask_cases', 'C12.nested_keywords_leak',
     'C12.relayed_len', 'C12.fits_512_relayed', 'C12.stale_belief_overflows',
     # lean/LimnoriaModel/C12/LinkC06.lean: blen = C06.utf8Len = driver bytes (C11), sentLine = C06.truncate
     'C12.blen_eq_driver_bytes', 'C12.takeBytes_eq_cutToBytes', 'C12.limits_agree', 'C12.sentLine_eq_truncate',
@@ -384,6 +384,7 @@ class Live(object):
         i18n.getLocalePath = locale_path
         self.lang = 'en'
         self.overridden = []
+        self.b.irc.state.supported['statusmsg'] = '@+'     # as a 005 STATUSMSG=@+ would
         # the bot's nick!user@host as the (simulated) SERVER knows it: the reference with which relayed lines are
         # measured.  It is only ever changed by feeding the bot the server's NICK / CHGHOST messages.
         self.true_prefix = self.b.irc.prefix
@@ -444,6 +445,19 @@ class Live(object):
                 child = g[k].get(ch['name'])
                 child.setValue(ch['vals'].get(k, CONF_DEFAULTS[k]))
                 self.overridden.append((g[k], child))
+        # values set for the network, and for one channel of the network (registry: <group>.:test[.#chan])
+        net = cfg.get('net')
+        nch = cfg.get('netchan')
+        if net or nch:
+            for k in CONF_KEYS:
+                node = g[k].get(':' + self.b.irc.network)
+                if nch:
+                    child = node.get(nch['name'])
+                    child.setValue(nch['vals'].get(k, CONF_DEFAULTS[k]))
+                    self.overridden.insert(0, (node, child))
+                if net:
+                    node.setValue(net.get(k, CONF_DEFAULTS[k]))
+                    self.overridden.append((g[k], node))
         self.become(cfg.get('from_botprefix'))
         if cfg.get('keep_userhost'):
             # only the nick changes (the server sends a NICK message, no CHGHOST)
@@ -474,7 +488,7 @@ class Live(object):
 
     def target(self, inp):
         """a private message is addressed to the bot's current nick"""
-        return inp['target'] if inp['target'].startswith('#') else self.true_nick
+        return self.true_nick if inp['target'] == 'test' else inp['target']
 
     def run(self, inp, T):
         b = self.b
@@ -484,9 +498,14 @@ class Live(object):
         shape = inp.get('shape', 'reply')
         if shape == 'action':
             kw['action'] = True
-        self.vp.VtLong.KW = kw
+        if shape == 'nested':
+            self.vp.VtLong.KW = dict(inp.get('kwinner', {}))
+            self.vp.VtLong.KW2 = kw
+        else:
+            self.vp.VtLong.KW = kw
+            self.vp.VtLong.KW2 = {}
         del self.spy[:]
-        chan = inp['target'].startswith('#')
+        chan = inp['target'] != 'test'
         cmd = {'reply': 'vtlong', 'action': 'vtlong', 'error': 'vterr', 'nested': 'vtarg [vtlong]'}[shape]
         b.ircutils.wrap = self.spy_wrap
         try:
@@ -549,19 +568,33 @@ def optb(v):
     return '~' if v is None else ('1' if v else '0')
 
 
+def eff_to(inp):
+    """self.to when the final reply is built: the nested command's `to`, else this call's"""
+    if inp.get('shape') == 'nested' and inp.get('kwinner', {}).get('to'):
+        return inp['kwinner']['to']
+    return inp['kw'].get('to')
+
+
+def eff_flag(inp, k):
+    return bool(inp['kw'].get(k) or (inp.get('shape') == 'nested' and inp.get('kwinner', {}).get(k)))
+
+
 def call_fields(L, inp):
     """the raw call (keywords, message, configuration tables) for the model; everything that depends on the
     bot's state (is it a channel, is the nick known) is asked to the real code BEFORE the command runs"""
     b = L.b
     irc = b.irc
     iu = b.ircutils
-    cfg = inp['cfg']; kw = inp['kw']
+    cfg = inp['cfg']
+    kw = dict(inp['kw'])
+    if inp.get('shape') == 'action':
+        kw['action'] = True
     nick = inp['prefix'].split('!', 1)[0]
     target = L.target(inp)
 
     def pub(x):
         return bool(irc.isChannel(irc.stripChannelPrefix(x)))
-    to = kw.get('to')
+    to = eff_to(inp)
     tohm = None
     if to:
         try:
@@ -572,16 +605,25 @@ def call_fields(L, inp):
     def vals(d):
         return [optb(d.get(k, CONF_DEFAULTS[k])) if isinstance(CONF_DEFAULTS[k], bool) else str(d.get(k, CONF_DEFAULTS[k]))
                 for k in CONF_KEYS]
-    ch = cfg.get('chan')
+
+    def kwf(d):
+        return [wire.enc_opt(d.get('to')), optb(d.get('notice')), optb(d.get('private')), optb(d.get('prefixNick')),
+                optb(d.get('action'))]
+    ch = cfg.get('chan'); net = cfg.get('net'); nch = cfg.get('netchan')
+    nested = inp.get('shape') == 'nested'
+    stripped = irc.stripChannelPrefix(target)
     # the prefix the MODEL sizes with is the bot's BELIEF (irc.prefix); the oracle measures with the truth
     return [wire.enc(irc.prefix), wire.enc(inp['prefix']), wire.enc(nick), wire.enc(target),
-            optb(pub(target)), wire.enc_opt(to), optb(pub(to) if to is not None else False), optb(pub(nick)),
-            optb(pub(target)), optb(bool(iu.isChannel(to)) if to else False), optb(bool(iu.isChannel(target))),
-            optb(bool(iu.isNick(to)) if to else False), wire.enc_opt(tohm),
-            optb(kw.get('notice')), optb(kw.get('private')), optb(kw.get('prefixNick')),
-            optb(inp.get('shape') == 'action'), '1', wire.enc(cfg.get('lang', 'en')),
+            wire.enc_opt(stripped if pub(target) else None)] + kwf(kw) + [optb(nested)] + \
+           kwf(inp.get('kwinner', {}) if nested else {}) + \
+           [wire.enc_opt(irc.stripChannelPrefix(to) if to is not None else None),
+            optb(pub(to) if to is not None else False), optb(pub(nick)), optb(pub(target)),
+            optb(bool(iu.isChannel(to)) if to else False), optb(bool(iu.isChannel(target))),
+            optb(bool(iu.isNick(to)) if to else False), wire.enc_opt(tohm), '1', wire.enc(cfg.get('lang', 'en')),
             optb(cfg.get('noticewhenprivate', True))] + vals(cfg) + \
-           [wire.enc_opt(ch['name'] if ch else None)] + vals(ch['vals'] if ch else {})
+           [wire.enc_opt(ch['name'] if ch else None)] + vals(ch['vals'] if ch else {}) + \
+           [wire.enc_opt('net' if net else None)] + vals(net or {}) + \
+           [wire.enc_opt(nch['name'] if nch else None)] + vals(nch['vals'] if nch else {})
 
 
 MAX_WIRE = 512
@@ -593,7 +635,7 @@ def live_case(I, L, inp, kind='live'):
     inp['cfg'].setdefault('from_botprefix', L.true_prefix)     # for replays: where the bot came from
     T = L.configure(inp['cfg'])
     call = call_fields(L, inp)
-    kwto = inp['kw'].get('to')
+    kwto = eff_to(inp)
     if kwto and b.ircutils.isNick(kwto):
         try:
             # the stack is stored under the hostmask the bot knows for `to`: that user pages through it
@@ -611,19 +653,23 @@ def live_case(I, L, inp, kind='live'):
     safe_full = b.ircutils.safeArgument(inp['text'])
     is_msg = lambda m: m.command in ('PRIVMSG', 'NOTICE')
     fails = []
-    tags = ['live', 'live:chan' if inp['target'].startswith('#') else 'live:private', 'live:shape-' + shape]
+    tags = ['live', 'live:chan' if inp['target'] != 'test' else 'live:private', 'live:shape-' + shape]
     if cfg.get('lang', 'en') != 'en': tags.append('live:lang-' + cfg['lang'])
     if cfg.get('chan'): tags.append('live:channel-values')
     # effective values, for the oracle only (the model does its own lookups)
-    lookup_target = inp['kw'].get('to') if (inp['kw'].get('private') and inp['kw'].get('to')) else L.target(inp)
-    eff = dict((k, cfg.get(k, CONF_DEFAULTS[k])) for k in CONF_KEYS)
-    if cfg.get('chan') and cfg['chan']['name'] == lookup_target and b.ircutils.isChannel(lookup_target):
-        eff.update(cfg['chan']['vals'])
-        tags.append('live:channel-values-used')
+    lookup_target = eff_to(inp) if (eff_flag(inp, 'private') and eff_to(inp)) else L.target(inp)
+    grp = L.groups()
+    eff = dict((k, b.conf.get(grp[k], channel=lookup_target, network=b.irc.network)) for k in CONF_KEYS)
+    if cfg.get('net') or cfg.get('netchan'): tags.append('live:network-values')
+    if L.target(inp)[:1] in '@+' and L.target(inp)[1:2] == '#': tags.append('live:statusmsg-target')
+    if shape == 'nested' and inp.get('kwinner'): tags.append('live:nested-keywords')
+    unchecked = shape == 'action' or eff_flag(inp, 'action')
     suffix_re = re.compile(r' \x02\((\d+) (%s|%s)\)\x02$' % (re.escape(T['sing']), re.escape(T['plur'])))
     # ---- canonical implementation output
     parts = []
-    if shape in ('action', 'error'):
+    if unchecked:
+        parts.append('unchecked')
+    elif shape == 'error':
         parts.append(shape)
     elif spy:
         s1, wl, _ = spy[0]
@@ -649,7 +695,7 @@ def live_case(I, L, inp, kind='live'):
         tags.append('live:two-callers')
         pos = None
         got_a = len(first)
-        a_private = not inp['target'].startswith('#') or bool(inp['kw'].get('private'))
+        a_private = not b.irc.isChannel(b.irc.stripChannelPrefix(L.target(inp))) or eff_flag(inp, 'private')
         for (w, nickarg, code, real) in steps:
             if w in ('A', 'C'):
                 got_a += len(real)
@@ -683,7 +729,8 @@ def live_case(I, L, inp, kind='live'):
     evaluated = True
     if not first or not all(is_msg(m) for m in delivered):
         fails.append((None, 'the command produced %r' % [str(m) for m in first]))
-    elif shape in ('action', 'error'):
+    elif unchecked or shape == 'error':
+        shape_eff = 'error' if shape == 'error' else 'action'
         # not length-checked by the code: one message, cut by Irc._truncateMsg when too long
         m = first[0]
         cut = str(m) != '%s %s :%s\r\n' % (m.command, m.args[0], m.args[1])
@@ -691,9 +738,9 @@ def live_case(I, L, inp, kind='live'):
             fails.append((None, '%s reply produced %d messages' % (shape, len(first))))
         if cut or wirelens[0] > MAX_WIRE:
             fails.append((F_UNCHECKED, '%s reply of %d bytes is one message: relayed line %d bytes, cut by the bot: %s'
-                          % (shape, blen(safe), wirelens[0], cut)))
+                          % (shape_eff, blen(safe), wirelens[0], cut)))
             tags.append('class:' + F_UNCHECKED)
-        want = (T['errp'] + safe) if shape == 'error' else ('\x01ACTION %s\x01' % safe.strip('\x01'))
+        want = (T['errp'] + safe) if shape_eff == 'error' else ('\x01ACTION %s\x01' % safe.strip('\x01'))
         body = m.args[1]
         if not body.endswith(want):
             fails.append((None, '%s reply carries %r, expected …%r' % (shape, body[-80:], want[-80:])))
@@ -705,8 +752,8 @@ def live_case(I, L, inp, kind='live'):
     else:
         tgt = delivered[0].args[0]
         np = ''
-        to = inp['kw'].get('to') or inp['prefix'].split('!', 1)[0]
-        if delivered[0].args[1].startswith(to + ': ') and b.irc.isChannel(tgt):
+        to = eff_to(inp) or inp['prefix'].split('!', 1)[0]
+        if delivered[0].args[1].startswith(to + ': ') and b.irc.isChannel(b.irc.stripChannelPrefix(tgt)):
             np = to + ': '
             tags.append('live:nickprefix')
         if delivered[0].command == 'NOTICE': tags.append('live:notice')
@@ -820,8 +867,8 @@ def live_case(I, L, inp, kind='live'):
             return '\n'.join(['error', prep_out] + outs[1:])
         f = outs[1].split('\t')     # outs: clear, reply, more*
         if f[0] == 'sent' and len(f) == 5:
-            if shape == 'action':
-                head = 'action'
+            if unchecked:
+                head = 'unchecked'
             else:
                 head = 'single' if f[3] == '~' else 'chunked\t%s\t%s' % (prep_out.split('\t')[1], f[3])
             # what is stored is looked up by the harness under the owner's hostmask
@@ -855,7 +902,7 @@ def gen_live_input(r, thorough=False):
         cfg['keep_userhost'] = True
     nick = r.choice(['al', 'alice', 'Bob_', 'n' * 16, 'x' * 30, 'zoé' if r.random() < 0.3 else 'carol', 'Al[i]ce'])
     prefix = '%s!%s@%s' % (nick, 'id' * r.randint(1, 4), r.choice(['host', 'a.b.c.example.org', 'h' * 40]))
-    target = r.choice(['#c', '#chan', '#' + 'c' * 30, '#ünï', 'test', 'test'])
+    target = r.choice(['#c', '#chan', '#' + 'c' * 30, '#ünï', 'test', 'test', '@#chan', '+#c'])
     prefixB = '%s!%s@%s' % (r.choice(['bob', 'B[o]b', 'robert_']), r.choice(['bo', 'rob']), r.choice(['host.b', 'b.example.org']))
     kw = {}
     k = r.random()
@@ -865,8 +912,19 @@ def gen_live_input(r, thorough=False):
     elif k < 0.35: kw['prefixNick'] = not cfg['nickprefix']
     elif k < 0.38: kw.update(private=True, to=r.choice(['#other', 'dave']))
     shape = r.choice(['reply'] * 14 + ['error', 'error', 'action', 'action', 'nested', 'nested', 'nested'])
-    if shape in ('nested', 'error'):
+    kwinner = {}
+    if shape == 'error':
         kw = {}
+    if shape == 'nested':
+        # keywords of the nested command's reply leak into the outer reply
+        k2 = r.random()
+        if k2 < 0.12: kwinner['private'] = True
+        elif k2 < 0.24: kwinner['notice'] = True
+        elif k2 < 0.34: kwinner['to'] = r.choice(['dave', '#other', prefixB.split('!')[0]])
+        elif k2 < 0.42: kwinner['prefixNick'] = r.random() < 0.5
+        elif k2 < 0.48: kwinner['action'] = True
+        if r.random() < 0.5:
+            kw = {}
     if shape == 'nested':
         cfg['nestedmax'] = r.choice([50, 300, 2000, 512 * 256])
     if r.random() < 0.25:
@@ -875,6 +933,14 @@ def gen_live_input(r, thorough=False):
                 'nickprefix': r.random() < 0.5, 'withnotice': r.random() < 0.5, 'inprivate': r.random() < 0.2,
                 'mores': r.random() >= 0.1, 'errnotice': r.random() < 0.5, 'errprivate': r.random() < 0.3}
         cfg['chan'] = {'name': r.choice([target if target.startswith('#') else '#chan', '#other', '#elsewhere']), 'vals': vals}
+    if r.random() < 0.12:
+        def some_vals():
+            return {'length': r.choice([0, 0, r.randint(45, 200)]), 'maximum': r.choice([2, 7, 50]), 'instant': r.choice([1, 3]),
+                    'nickprefix': r.random() < 0.5, 'withnotice': r.random() < 0.5, 'inprivate': r.random() < 0.2,
+                    'mores': True, 'errnotice': r.random() < 0.5, 'errprivate': r.random() < 0.3}
+        k3 = r.random()
+        if k3 < 0.6: cfg['net'] = some_vals()
+        if k3 > 0.4: cfg['netchan'] = {'name': r.choice([target if target.startswith('#') else '#chan', '#other']), 'vals': some_vals()}
     width = (cfg['length'] or 400)
     if cfg.get('chan') and cfg['chan']['name'] == target and cfg['chan']['vals']['length']:
         width = cfg['chan']['vals']['length']
@@ -908,9 +974,11 @@ def gen_live_input(r, thorough=False):
         # safeArgument (repr) is a parameter of the model, applied by the harness to the text alone
         text = text.replace('\n', ' ')
     inp = {'cfg': cfg, 'prefix': prefix, 'target': target, 'kw': kw, 'text': text or 'x', 'prefixB': prefixB}
+    if kwinner:
+        inp['kwinner'] = kwinner
     if shape != 'reply':
         inp['shape'] = shape
-    if r.random() < 0.45 and 'to' not in kw and shape in ('reply', 'nested'):
+    if r.random() < 0.45 and 'to' not in kw and 'to' not in kwinner and shape in ('reply', 'nested'):
         # a second caller (other user@host) using `more <A>`, sometimes a third one sharing A's user@host
         inp['prefixC'] = '%s!%s' % (r.choice(['carl', 'al_away']), prefix.split('!', 1)[1])
         if r.random() < 0.3:
